@@ -69,6 +69,9 @@ struct Expect {
     addressed: bool,
     deliver: Option<bool>,
     reply: Option<Option<u8>>,
+    /// confirmed user data by broadcast with the expected frame count bit: delivering it (the bit toggles) and dropping it
+    /// (it does not) are both within the statement; the caller moves the model along with what it sees
+    toggle_if_delivered: bool,
 }
 
 fn expect(
@@ -82,6 +85,7 @@ fn expect(
 ) -> Expect {
     let nothing = Expect {
         addressed: false,
+        toggle_if_delivered: false,
         deliver: Some(false),
         reply: Some(None),
     };
@@ -119,6 +123,7 @@ fn expect(
     if !prm {
         return Expect {
             addressed: true,
+            toggle_if_delivered: false,
             deliver: None,
             reply: None,
         };
@@ -126,6 +131,7 @@ fn expect(
     match (function, fcv) {
         (4, false) => Expect {
             addressed: true,
+            toggle_if_delivered: false,
             deliver: Some(true),
             reply: Some(None),
         },
@@ -133,6 +139,7 @@ fn expect(
             *sec = Sec::Reset(true);
             Expect {
                 addressed: true,
+                toggle_if_delivered: false,
                 deliver: Some(false),
                 reply: Some(Some(0x00)),
             }
@@ -140,6 +147,7 @@ fn expect(
         (3, true) => match *sec {
             Sec::NotReset => Expect {
                 addressed: true,
+                toggle_if_delivered: false,
                 deliver: Some(false),
                 reply: if broadcast { Some(None) } else { None },
             },
@@ -148,8 +156,15 @@ fn expect(
             // layer); only the broadcast rule and the at-most-once bound (checked by the caller) are asserted then
             Sec::Reset(_) if reset_by.is_some() && reset_by != Some(src) => Expect {
                 addressed: true,
+                toggle_if_delivered: false,
                 deliver: None,
                 reply: if broadcast { Some(None) } else { None },
+            },
+            Sec::Reset(exp) if broadcast => Expect {
+                addressed: true,
+                toggle_if_delivered: fcb == exp,
+                deliver: if fcb == exp { None } else { Some(false) },
+                reply: Some(None),
             },
             Sec::Reset(exp) => {
                 let deliver = fcb == exp;
@@ -158,19 +173,22 @@ fn expect(
                 }
                 Expect {
                     addressed: true,
+                    toggle_if_delivered: false,
                     deliver: Some(deliver),
-                    reply: Some(if broadcast { None } else { Some(0x00) }),
+                    reply: Some(Some(0x00)),
                 }
             }
         },
         (9, false) => Expect {
             addressed: true,
+            toggle_if_delivered: false,
             deliver: None,
             reply: Some(Some(0x0B)),
         },
         // malformed flag combinations and other functions: only "a broadcast is never answered" is asserted
         _ => Expect {
             addressed: true,
+            toggle_if_delivered: false,
             deliver: None,
             reply: if broadcast { Some(None) } else { None },
         },
@@ -244,6 +262,11 @@ fn exhaustive_table() -> (u64, Vec<J>, Option<(Fail, J)>) {
                                     *src,
                                 );
                                 let seen = feed(&mut layer, &frame);
+                                if e.toggle_if_delivered && seen.delivered.is_some() {
+                                    if let Sec::Reset(x) = sec {
+                                        sec = Sec::Reset(!x);
+                                    }
+                                }
                                 let js = J::o(vec![
                                     (
                                         "role",
@@ -388,6 +411,11 @@ impl Prop for Fcb {
             }
             let e = expect(case.master_role, false, &mut sec, None, ctrl, dst, 1);
             let seen = feed(&mut layer, &rl::encode(ctrl, dst, 1, &payload));
+            if e.toggle_if_delivered && seen.delivered.is_some() {
+                if let Sec::Reset(x) = sec {
+                    sec = Sec::Reset(!x);
+                }
+            }
             let own_dir = if case.master_role { 0x80u8 } else { 0x00 };
             if let Some(d) = e.deliver {
                 if d != seen.delivered.is_some() {
